@@ -767,6 +767,21 @@ func runScenario(cfg Config, sc Scenario, free int) *Result {
 			}
 			res.SentBefore[st.T] = append([]int{}, res.Sent[tc.Target]...)
 			var cx context.Context
+			if tc.Graceful && sc.ID%4 == 3 && h.free == 0 && h.registered(tc.Target) {
+				// two impatient callers first: they ask for the same graceful stop with contexts of their own and give
+				// up at once (in the order they came).  Their requests stand (the first pill is the one acted on, the
+				// behaviour's own request follows immediately), and their giving up is nobody else's business: the
+				// behaviour's caller is still signalled when the actor has stopped
+				var quit []context.CancelFunc
+				for k := 0; k < 2; k++ {
+					ictx, icancel := context.WithCancel(context.Background())
+					e.PoisonCtx(ictx, h.pids[tc.Target])
+					quit = append(quit, icancel)
+				}
+				for _, c := range quit {
+					c()
+				}
+			}
 			if tc.Graceful && sc.ID%2 == 1 {
 				// PoisonCtx with a context of the caller's: it is cancelled at the end of the scenario, once the stop
 				// has been signalled (a caller's usual "defer cancel()"), which must change nothing
